@@ -254,6 +254,28 @@ def sany_ok(module):
     return p.returncode == 0 and "Semantic errors" not in p.stdout and "***Parse Error***" not in p.stdout, p.stdout
 
 
+
+def apalache(module, init, inv, length, timeout=300):
+    """Runs apalache-mc check on spec/<module>.tla.  Returns 'ok', 'violated' or 'not_attempted:<why>'
+    (a stall or a tool problem is never a failure of the property)."""
+    d = tempfile.mkdtemp(prefix="verif_apa_")
+    try:
+        cmd = ["apalache-mc", "check", "--cinit=ConstInit", "--init=" + init, "--inv=" + inv, "--length=%d" % length,
+               "--out-dir=" + d, os.path.join(SPEC, module + ".tla")]
+        try:
+            p = subprocess.run(cmd, cwd=d, stdout=subprocess.PIPE, stderr=subprocess.STDOUT, text=True, timeout=timeout)
+        except subprocess.TimeoutExpired:
+            return "not_attempted:timeout"
+        except OSError as e:
+            return "not_attempted:%r" % (e,)
+        if "EXITCODE: OK" in p.stdout and "NoError" in p.stdout:
+            return "ok"
+        if "invariant" in p.stdout and "violated" in p.stdout:
+            return "violated"
+        return "not_attempted:" + p.stdout[-200:].replace("\n", " ")
+    finally:
+        shutil.rmtree(d, ignore_errors=True)
+
 # --------------------------------------------------------------------------
 # batched trace validation
 # --------------------------------------------------------------------------
